@@ -62,9 +62,23 @@ def accesses(db, C, f):
             if obj is not None and not n.get("fconst") and callee_name(n) not in MUTATORS_EXEMPT:
                 so = strip(obj)
                 writes.setdefault(so.get("id"), n)
+    # an lvalue bound to a reference parameter of a function of the code base is not an access here: the callee's own
+    # accesses (analysed in the callee, with the parameter resolved to this location) are
+    byref = set()
+    for c in f.calls():
+        g = db.funcs.get(c.get("f"))
+        if g is None or g.body is None or c["k"] not in ("CallExpr", "CXXMemberCallExpr"):
+            continue
+        for i, a in enumerate(c.get("args", [])):
+            if i < len(g.params) and g.types[g.params[i]["t"]].get("kind") == "ref":
+                sa = strip(a)
+                if sa["k"] in ("DeclRefExpr", "MemberExpr"):
+                    byref.add(sa.get("id"))
     for n in f.nodes():
         k = n["k"]
         if k == "MemberExpr" and n.get("mk") == "field" or k == "DeclRefExpr" and n.get("dk") in ("local", "global", "staticlocal", "staticmember"):
+            if n.get("id") in byref:
+                continue
             p = access_path(f, n)
             if p is None:
                 continue
@@ -145,14 +159,16 @@ def r_cv(db, rep):
         g = access_path(f, args[0]) if args else None
         M = C.ls(f).guards.get(g[1]) if g and g[0] == "local" else None
         rep.ob()
-        if len(args) < 2 or not any(strip(a)["k"] == "LambdaExpr" for a in args):
+        lam = None
+        for a in args[1:]:
+            lam = lam or lambda_of(db, f, a)
+        if len(args) < 2 or lam is None:
             rep.viol("%s#wait-without-predicate" % f.qn, f.nloc(n),
                      "%s waits on %s without a predicate: a notification sent before the wait is lost" % (f.qn, loc_str(cvloc)), f.qn)
             continue
         if M is None:
             rep.viol("%s#wait-mutex" % f.qn, f.nloc(n), "cannot identify the mutex of the wait in %s" % f.qn, f.qn)
             continue
-        lam = db.funcs[next(strip(a) for a in args if strip(a)["k"] == "LambdaExpr")["lambda"]]
         S = pred_reads(db, C, lam)
         rep.inst(f.nloc(n), "%s waits on %s with mutex %s; predicate reads %s" % (
             f.qn, loc_str(cvloc), loc_str(M), ", ".join(sorted(loc_str(l) for l in S))))
@@ -253,6 +269,11 @@ def r_once(db, rep):
                 for v in d["decls"]:
                     if v.get("init") is not None and any(x is n for x in walk(v["init"])):
                         decl = v
+            elif (is_assignment(d) or (d["k"] == "CXXOperatorCallExpr" and d.get("opcall") == "=")) and any(x is n for x in walk(d)):
+                tgtn = d["lhs"] if is_assignment(d) else (d["args"][0] if d.get("args") else None)
+                tp = access_path(run, tgtn) if tgtn is not None else None
+                if tp and tp[0] == "local" and len(tp) == 2:
+                    decl = {"d": tp[1]}
         rep.ob()
         invs = []
         if decl is not None:
@@ -316,9 +337,10 @@ def _roles(db):
             continue
         for n in f.calls():
             if n.get("f") == add.id:
-                for x in walk(n):
-                    if x["k"] == "LambdaExpr":
-                        tasks.append(db.funcs[x["lambda"]])
+                for a in n.get("args", []):
+                    t = lambda_of(db, f, a)
+                    if t is not None:
+                        tasks.append(t)
     tclo = set(db.closure(tasks))
     return run, tasks, wclo | tclo
 
@@ -331,11 +353,17 @@ def r_lockset(db, rep):
     bctor = [c for c in db.methods_of(BLOCKS) if c.is_ctor and any(x["k"] == "LambdaExpr" for x in c.nodes())]
     scope = [f for f in db.funcs.values() if f.file == "parallel/Worker.hpp"] + bctor + \
             [l for c in bctor for l in db.lambdas_of.get(c.id, [])]
+    # file-local helpers the building constructor calls (and their lambdas)
+    for c in bctor:
+        for fid in db.closure([c]):
+            h = db.funcs[fid]
+            if h.file == c.file and h.rec is None and not h.is_lambda and h not in scope and h.cfg is not None:
+                scope.append(h)
+                scope.extend(db.lambdas_of.get(h.id, []))
     join_nodes = {}
     for c in bctor:
-        for n in c.calls():
-            if callee_name(n) == "wait_workers":
-                join_nodes[c.id] = n
+        for n in sync_nodes(db, c, "join"):
+            join_nodes[c.id] = n
     acc = collections.defaultdict(list)
     for f in scope:
         if not f.cfg:
@@ -401,7 +429,9 @@ def r_slot(db, rep):
         rep.visit(c)
         cfg = c.cfg
         for call in [n for n in c.calls() if n.get("f") == add.id]:
-            lam_node = next((x for x in walk(call) if x["k"] == "LambdaExpr"), None)
+            lam_node = None
+            for a in call.get("args", []):
+                lam_node = lam_node or lambda_node_of(db, c, a)
             if lam_node is None:
                 continue
             lam = db.funcs[lam_node["lambda"]]
@@ -473,6 +503,30 @@ def r_slot(db, rep):
                         rep.viol("%s#task-resizes-parts" % c.qn, l2.nloc(n), "a task resizes parts: other tasks' slots move", l2.qn)
 
 
+SYNC_KINDS = {
+    "wait": lambda n: callee_name(n) == "wait" and n.get("frec", "").startswith("std::condition_variable"),
+    "stop": lambda n: callee_name(n) == "stop_all_workers",
+    "join": lambda n: callee_name(n) == "wait_workers",
+}
+
+
+def sync_nodes(db, g, kind, depth=0):
+    """Call nodes of g that perform the synchronisation step `kind`: the primitive itself, or a helper of the code base that
+    performs it on every path from its entry to its exit."""
+    out = []
+    for n in g.calls():
+        if SYNC_KINDS[kind](n):
+            out.append(n)
+        elif depth < 3:
+            h = db.funcs.get(n.get("f"))
+            if h is not None and h.body is not None and h.cfg is not None and h.id != g.id and in_scope(h) and n["k"] in ("CallExpr", "CXXMemberCallExpr"):
+                inner = [h.cfg.position(x) for x in sync_nodes(db, h, kind, depth + 1)]
+                inner = [p for p in inner if p is not None]
+                if inner and not h.cfg.path_exists(h.cfg.entry, [h.cfg.exit], avoid=inner):
+                    out.append(n)
+    return out
+
+
 @rule("R-JOIN", 1, "parallel build: the constructor passes, in order, the completion wait, stop_all_workers and wait_workers on every "
                    "path before it returns, frees the shared input, or lets by-reference captures die")
 def r_join(db, rep):
@@ -481,9 +535,7 @@ def r_join(db, rep):
         rep.visit(c)
         cfg = c.cfg
         rep.inst(c.loc, "%s: wait -> stop -> join ordering" % c.qn)
-        w = [n for n in c.calls() if callee_name(n) == "wait" and n.get("frec", "").startswith("std::condition_variable")]
-        s = [n for n in c.calls() if callee_name(n) == "stop_all_workers"]
-        j = [n for n in c.calls() if callee_name(n) == "wait_workers"]
+        w, s, j = sync_nodes(db, c, "wait"), sync_nodes(db, c, "stop"), sync_nodes(db, c, "join")
         adds = [n for n in c.calls() if callee_name(n) == "add_task"]
         rep.ob()
         if not (w and s and j):
@@ -500,7 +552,18 @@ def r_join(db, rep):
                              "a path from add_task to the end of %s skips the %s: the constructor can return (and the pool, mutex and counters "
                              "die) while tasks still run" % (c.qn, name), c.qn)
         rep.ob()
-        if not (cfg.dominates(wp, sp) and cfg.dominates(sp, jp)):
+        ordered = cfg.dominates(wp, sp) and cfg.dominates(sp, jp)
+        if ordered and (w[0] is s[0] or s[0] is j[0]):
+            # several steps inside one helper: their order is the helper's
+            h = db.funcs.get(w[0].get("f") if w[0] is s[0] else s[0].get("f"))
+            if h is not None and h.cfg is not None:
+                hw, hs, hj = sync_nodes(db, h, "wait"), sync_nodes(db, h, "stop"), sync_nodes(db, h, "join")
+                pos = lambda lst: h.cfg.position(lst[0]) if lst else None
+                if w[0] is s[0] and not (pos(hw) and pos(hs) and h.cfg.dominates(pos(hw), pos(hs)) and pos(hw) != pos(hs)):
+                    ordered = False
+                if s[0] is j[0] and not (pos(hs) and pos(hj) and h.cfg.dominates(pos(hs), pos(hj)) and pos(hs) != pos(hj)):
+                    ordered = False
+        if not ordered:
             rep.viol("%s#order" % c.qn, c.nloc(s[0]), "completion wait, stop_all_workers and wait_workers are not executed in this order", c.qn)
         # the shared input dies only after the join
         for n in c.nodes():
@@ -638,10 +701,54 @@ def r_workerpure(db, rep):
 @rule("R-PARAMFLOW", 2, "thread_count reaches nothing but the pool size; cut_size only the cut decision and the saved header")
 def r_paramflow(db, rep):
     bctors = [c for c in db.methods_of(BLOCKS) if c.is_ctor]
+    E = get_effects(db)
+
+    def role_of(c, i):
+        """'thread_count' for the parameter handed to the WorkerPool, 'cut_size' for the one stored in field cut_size (else by name)."""
+        for n in c.nodes():
+            if n["k"] == "DeclRefExpr" and n.get("dk") == "param" and n.get("pi") == i:
+                for a in c.ancestors(n):
+                    if a["k"] in ("CXXConstructExpr", "CXXTemporaryObjectExpr"):
+                        if a.get("rec") == "WorkerPool":
+                            return "thread_count"
+                        break
+        for ini in c.raw.get("inits", []):
+            if ini.get("field") == "cut_size" and isinstance(ini.get("init"), dict) and \
+                    any(x["k"] == "DeclRefExpr" and x.get("dk") == "param" and x.get("pi") == i for x in walk(ini["init"])):
+                return "cut_size"
+        return c.params[i]["n"] if c.params[i]["n"] in ("thread_count", "cut_size") else None
+
+    def pure_decision_helper(c, call, u):
+        """cut_size handed to an effect-free helper that only compares it, the call being (part of) a branch condition."""
+        g = db.funcs.get(call.get("f"))
+        if g is None or g.body is None or g.id not in E.sum:
+            return False
+        S = E.sum[g.id]
+        if S.mod or S.free:
+            return False
+        ai = next((k for k, a in enumerate(call.get("args", [])) if any(x is u for x in walk(a))), None)
+        if ai is None or ai >= len(g.params):
+            return False
+        for x in g.nodes():
+            if x["k"] == "DeclRefExpr" and x.get("dk") == "param" and x.get("pi") == ai:
+                par = g.parent(x)
+                while par is not None and par["k"] in TRANSPARENT:
+                    par = g.parent(par)
+                if par is None or par["k"] != "BinaryOperator" or par["op"] not in (">", "<", ">=", "<="):
+                    return False
+        for a in c.ancestors(call):
+            if a["k"] in ("IfStmt", "WhileStmt", "ForStmt", "DoStmt"):
+                return a.get("cond") is not None and any(x is call for x in walk(a["cond"]))
+            if a["k"] in ("CompoundStmt", "DeclStmt", "ReturnStmt"):
+                return False
+        return False
+
     for c in bctors:
-        for i, p in enumerate(c.params):
-            if p["n"] not in ("thread_count", "cut_size"):
+        for i, p0 in enumerate(c.params):
+            role = role_of(c, i)
+            if role is None:
                 continue
+            p = {"n": role}
             rep.visit(c)
             uses = [n for n in c.nodes() if n["k"] == "DeclRefExpr" and n.get("dk") == "param" and n.get("pi") == i]
             rep.inst(c.loc, "%s: %d uses of %s" % (c.qn, len(uses), p["n"]))
@@ -664,6 +771,10 @@ def r_paramflow(db, rep):
                         op = access_path(c, other)
                         ok = op is not None and op[0] == "local"
                         why = "comparison"
+                        break
+                    if a["k"] == "CallExpr" and p["n"] == "cut_size" and pure_decision_helper(c, a, u):
+                        ok = True
+                        why = "decision helper"
                         break
                     if a["k"] in ("CallExpr", "CXXMemberCallExpr", "BinaryOperator", "CompoundAssignOperator", "ArraySubscriptExpr", "ReturnStmt", "IfStmt",
                                   "WhileStmt", "ForStmt", "CXXNewExpr"):
@@ -841,6 +952,7 @@ def r_drain(db, rep):
             if not inner:
                 exits.append(("the %s at line %s" % ("break" if n["k"] == "BreakStmt" else "return", n.get("l")), n, run.cfg.guards(n)))
     for what, node, atoms in exits:
+        atoms = expand_atoms(db, atoms)
         rep.inst(run.nloc(node), "Worker::run can leave its loop through %s" % what)
         knows_stopped = knows_empty = False
         for c, pol in atoms:
